@@ -8,6 +8,7 @@ use num_bigint::{BigInt, BigUint, Sign};
 use std::fmt::Write as FmtWrite;
 use std::io::Write;
 use std::panic::{catch_unwind, AssertUnwindSafe};
+static INFLIGHT: std::sync::OnceLock<Option<std::ffi::OsString>> = std::sync::OnceLock::new();
 
 pub const NU: usize = 8;
 pub const NI: usize = 8;
@@ -403,7 +404,13 @@ impl Rec {
     }
 
     /// marker written (and flushed) before the call so that a crash or hang is attributable
-    fn emit_begin(&mut self, _name: &str) {}
+    fn emit_begin(&mut self, name: &str) {
+        // HARNESS_INFLIGHT names a side file that always holds the operation currently in flight: when the process dies
+        // inside a call (abort, stack overflow, SIGFPE, time-out) the checker reads it and attributes the `crashed` event
+        if let Some(p) = INFLIGHT.get_or_init(|| std::env::var_os("HARNESS_INFLIGHT")) {
+            let _ = std::fs::write(p, name);
+        }
+    }
 
     pub fn is_active(&self) -> bool {
         self.active
